@@ -192,3 +192,19 @@ Proof.
   - intros x c y Eo. apply lay_after_rp. exact (adj_at lay x _ 41 c y E Eo).
   - intros x c y Eo. apply lay_before_lp. exact (adj_at lay x _ c 40 y E Eo).
 Qed.
+
+(* a decision procedure for text_layout (sound; used for the closed non-vacuity checks of Properties/C19.v) *)
+Definition text_layoutb (o : str) : bool :=
+  nonemptyb o && negb (hd 0 o =? 32) && negb (last o 0 =? 32) && forallb (fun c => negb (is_ws c) || (c =? 32)) o && adj lay o.
+Theorem text_layoutb_sound o : text_layoutb o = true -> text_layout o.
+Proof.
+  unfold text_layoutb, text_layout. intros H. apply andb_true_iff in H as [H E]. apply andb_true_iff in H as [H D].
+  apply andb_true_iff in H as [H C]. apply andb_true_iff in H as [A B].
+  apply negb_true_iff, N.eqb_neq in B. apply negb_true_iff, N.eqb_neq in C. rewrite forallb_forall in D.
+  split; [destruct o; [discriminate A|discriminate]|]. split; [exact B|]. split; [exact C|].
+  split.
+  - intros c I W. specialize (D c I). rewrite W in D. cbn [negb orb] in D. now apply N.eqb_eq.
+  - split; [now apply adj_no_pair|]. split; [now apply adj_no_pair|]. split; [now apply adj_no_pair|]. split.
+    + intros x c y Eo. apply lay_after_rp. exact (adj_at lay x _ 41 c y E Eo).
+    + intros x c y Eo. apply lay_before_lp. exact (adj_at lay x _ c 40 y E Eo).
+Qed.
